@@ -80,6 +80,9 @@ Definition missing_value (pol : policy) (k : str) : res str :=
   | PEmpty => Ok []
   end.
 
+(* MAX_DEPTH: the recursion uses the call stack; deeper nesting is a typed error *)
+Definition max_depth : nat := 100.
+
 Fixpoint subst (r : fenv) (pol : policy) (rec : list str -> str -> res str)
          (seen : list str) (segs : list seg) : res str :=
   match segs with
@@ -87,6 +90,7 @@ Fixpoint subst (r : fenv) (pol : policy) (rec : list str -> str -> res str)
   | Lit l :: t => match subst r pol rec seen t with Ok x => Ok (l ++ x) | e => e end
   | Ref k :: t =>
       if mem_str k seen then Err (ECycle k)                                 (* :136-138 *)
+      else if Nat.leb max_depth (length seen) then Err (ETooDeep k)
       else
         match (match alookup k r with
                | Some v => rec (k :: seen) v                                  (* :142 *)
